@@ -1,4 +1,5 @@
 import EpdVerif.AuditCmd
 import EpdVerif.Props.C11
+import EpdVerif.Props.C11Big
 import EpdVerif.Props.Panels
 #audit_namespace EpdVerif.Props.C11
